@@ -185,9 +185,15 @@ class History:
         self.tainted = False  # an unpublished session happened
 
     # -- directory resolution (indices keep shrinking meaningful) ----------
+    # fresh directory names are deliberately prefix-related ("d" < "d1" <
+    # "d10", "e" < "e0"): string-prefix tests on paths must not confuse them
+    _NAMES = ["d", "d1", "d10", "d1a", "e", "e0", "d2", "d20"]
+
     def _fresh(self) -> str:
+        k = self.new_dir_counter
         self.new_dir_counter += 1
-        return f"d{self.new_dir_counter}"
+        base = self._NAMES[k % len(self._NAMES)]
+        return base if k < len(self._NAMES) else f"{base}_{k // len(self._NAMES)}"
 
     def resolve_dir(self, d: dict):
         rel, pick = d["rel"], d["pick"]
